@@ -118,3 +118,5 @@ def run(ctx):
         ctx.ob('4a iteration-bounded-by-fill-mark', 'K4-provenance', iw.path,
                'the slot range walked by value iteration derives from ValueTable.filled (slots appended by logged records are visited), not from `written` alone',
                bool(rng) and '.ValueTable.filled' in fl, 'range derives from %s' % sorted(f for f in fl if 'ValueTable' in f))
+    # 5. a counted operation lands on the key it names
+    shared.index_hit_verified_against_key(ctx, '5')
